@@ -133,7 +133,7 @@ fn run_op(op: &str, shape: usize, n: usize) -> String {
             "get_by_path" => {
                 let a = deep_jsonb(shape, n, 1);
                 let mut res = "ok";
-                for p in ["$[*][*]", "$.a.a", "$[0][0][*]", "$.*.*?(exists(@.a))"] {
+                for p in ["$[*][*]", "$.a.a", "$[0][0][*]", "$.*.*?(exists(@.a))", "$[*]?(@ == 1)", "$.*?(@ == 1)", "$[0] == 1", "$.a == 1", "$[*]?(@[0] == 1 || @.a > 0)", "$.a?(@.a != $.a)"] {
                     let jp = jsonb::jsonpath::parse_json_path(p.as_bytes()).unwrap();
                     let (mut d, mut o) = (vec![], vec![]);
                     if jsonb::get_by_path(&a, jp, &mut d, &mut o).is_err() { res = "err"; }
